@@ -149,6 +149,25 @@ pub fn check_case(x: &[u8], t: &[u8], s: &[u8], sm: bool) -> Result<String, (Str
             });
             let d1 = Decoded { msg: e1.clone(), ..d.clone() };
             judge("pp_rename_twice", x, &d1, &expected2, got2, false)?;
+            // and the other order of entry points: first through the packet object, then, on the same object, through
+            // the renamer directly (which returns the bytes); the question the object reports in between is the
+            // renamed one
+            let mut pp = crate::subj::parse(x).unwrap();
+            let got3 = caught(|| -> Result<Vec<u8>, String> {
+                pp.rename_with_raw_names(t, s, sm).map_err(|e| e.to_string())?;
+                let q = pp.question().map(|q| q.0);
+                let want = e1.q.first().map(|q| dotted_lower(&q.name));
+                if q != want {
+                    return Err(format!("__question__ after the rename question() reports {:?}, the renamed question is {:?}", q.map(|v| String::from_utf8_lossy(&v).to_string()), want.map(|v| String::from_utf8_lossy(&v).to_string())));
+                }
+                Renamer::rename_with_raw_names(&mut pp, s, t, sm).map_err(|e| e.to_string())
+            });
+            if let Ok(Err(e)) = &got3 {
+                if let Some(m) = e.strip_prefix("__question__ ") {
+                    return Err(("pp_rename:question_not_renamed".into(), m.to_string()));
+                }
+            }
+            judge("pp_then_renamer", x, &d1, &expected2, got3, false)?;
         }
     }
     let hits = count_hits(&d.msg, s, sm);
